@@ -761,6 +761,81 @@ def s15(rep):
 S16_MERGED = ("tblElt", "stabGetEntry", "stabEntryAllSymes", "stabGetMeanings", "stabEntryGetSymes", "stabFindLevel")
 
 
+def s17(rep):
+    """`return` without a value in a function that returns one is an error (ALDOR_E_TinReturnNoVal).  Whether a value is wanted is
+    a matter of the function's return type alone -- the `far type' the return is checked against.  The return *statement's* own
+    context says nothing about it: every statement of a sequence but the last is in a no-value context.  A test that also asks
+    the statement's context (tfIsNoValueContext(type, absyn)) accepts `if n > 3 then return; n + 1` in a function declared to
+    return SingleInteger: no diagnostic, status 0, and code files for a function that falls off without a result.  In ti_tdn.c
+    the error is raised under exactly `no value is given` and `the far type is not None`; no other predicate takes part."""
+    f = common.extract("ti_tdn.c", all_trees=True)
+    sites = []
+    for name, fn in sorted(f.funcs.items()):
+        if "body" not in fn or not fn.get("file", "").endswith("ti_tdn.c"):
+            continue
+        inits = {}
+        for x in walk(fn["body"]):
+            if x["k"] == "DeclStmt":
+                for d in x.get("decls", []):
+                    if d.get("init") is not None:
+                        inits[d["n"]] = d["init"]
+        for st in walk(fn["body"]):
+            if st["k"] != "IfStmt":
+                continue
+            inner = [y for y in walk(st["c"][1]) if y["k"] == "IfStmt"]
+            for c in calls(st["c"][1], "comsgError"):
+                if any(any(z is c for z in walk(i_["c"][1])) for i_ in inner):
+                    continue                                   # an inner `if` is the one that decides
+                if any(y.get("mac") == "ALDOR_E_TinReturnNoVal" or y.get("n") == "ALDOR_E_TinReturnNoVal" for y in walk(c)):
+                    sites.append((name, st, inits))
+    if len(sites) != 1:
+        raise AnalysisBroken("ti_tdn.c: ALDOR_E_TinReturnNoVal is raised at %d sites (one expected)" % len(sites))
+    name, st, inits = sites[0]
+
+    def atoms(e):
+        e = strip(e)
+        if e is not None and e["k"] == "BinaryOperator" and e["op"] == "&&":
+            return atoms(e["c"][0]) + atoms(e["c"][1])
+        return [e]
+
+    def resolve(a):
+        neg = False
+        while a is not None and a["k"] == "UnaryOperator" and a["op"] == "!":
+            neg, a = not neg, strip(a["c"][0])
+        if a is not None and a["k"] == "DeclRefExpr" and a["n"] in inits:
+            a = strip(inits[a["n"]])
+        return neg, a
+
+    where = "ti_tdn.c:%d (%s)" % (st["l"], name)
+    seen_absent = seen_type = False
+    for a in atoms(st["c"][0]):
+        neg, e = resolve(a)
+        if e is None:
+            raise AnalysisBroken(where + ": empty conjunct")
+        if any(y.get("n") == "AB_Nothing" or y.get("mac") == "AB_Nothing" for y in walk(e)) and not neg:
+            seen_absent = True
+            continue
+        foreign = sorted({y.get("callee") or "?" for y in walk(e) if y["k"] == "CallExpr" and y.get("mac") != "tfIsNone"})
+        if any(y.get("mac") == "tfIsNone" for y in walk(e)) and neg and not foreign:
+            seen_type = True
+            continue
+        if foreign:
+            rep.violation("S17", "return-without-value-judged-by-the-return-type", where,
+                          "the error for a `return` without a value also depends on %s: whether a value is wanted is decided by "
+                          "the function's return type alone; the statement's own context is a no-value context for every "
+                          "statement of a sequence but the last, so `if n > 3 then return; n + 1` in a function returning "
+                          "SingleInteger is accepted without a diagnostic and code is generated for it" % ", ".join(foreign))
+            return
+        raise AnalysisBroken(where + ": conjunct `%s` of the test not understood" % render(e)[:60])
+    if seen_absent and seen_type:
+        rep.ok("S17", "return-without-value-judged-by-the-return-type")
+    else:
+        rep.violation("S17", "return-without-value-judged-by-the-return-type", where,
+                      "the error for a `return` without a value is no longer raised under `no value given` and `the return type is "
+                      "not None` (%s missing): a function declared to return a value may fall off a bare `return` undiagnosed"
+                      % ("the test of the return type" if seen_absent else "the test for an absent value"))
+
+
 def s16(rep):
     """`Does this add body itself define export f: T?` is the question behind the missing-exports error (tiAddSymes,
     terrorNotEnoughExports both ask stabGetDomainExportMod).  A level keeps two things: its own bindings (boundSymes, read by
@@ -866,6 +941,7 @@ def run(tier, only=None):
     s14(rep)
     s15(rep)
     s16(rep)
+    s17(rep)
     from . import variant_dispatch
     variant_dispatch.report_absyn(rep, "S10", ["ti_bup.c", "ti_tdn.c", "ti_sef.c", "scobind.c", "abcheck.c"], 180)
     from . import selfcompare
